@@ -2095,6 +2095,9 @@ func (g *gen) fillN(n parquet.Node, v reflect.Value, path string) {
 	case reflect.Slice:
 		if v.Type().Elem().Kind() == reflect.Uint8 {
 			fixed := n != nil && n.Leaf() && n.Type().Kind() == parquet.FixedLenByteArray
+			if v.Type() == reflect.TypeOf(json.RawMessage(nil)) && n != nil && !n.Optional() {
+				fixed = true // a required column of JSON texts: the empty text is not JSON
+			}
 			if g.nullish(path) && !(fixed && !n.Optional()) { // a required fixed size column has no value for a nil slice
 				if g.rng.Intn(2) == 0 && !fixed {
 					v.Set(reflect.MakeSlice(v.Type(), 0, 0))
